@@ -56,6 +56,18 @@ claim("C04",
       "(syndromes, Euclid, Chien, Forney) and the correction bound floor(r/2), GF(1024)/GF(4096) table product == polynomial product for all pairs (16.7M cases), termination of Divide.",
       "tables dumped from the compiled package on every run; polynomial layer in integer mode (XOR facts imported from lemmas proved on 64-bit vectors); remainder by a symbolic positive divisor given its bounds explicitly; "
       "Encode assumes the buffer does not share memory with the encoder's polynomials (sepEnc) and len <= size-1.")
+claim("C08",
+      "Pieces of the ECC 200 construction, each stated from the standard and proved for all inputs or all table entries: the 30-entry symbol attribute table is consistent (regions, modules = 8*(data+error), "
+      "interleaved blocks, 144x144 = 1558+620 in 8+2 blocks) and the decoder's version table holds the same 30 symbols (size, data region, total codewords, parity per block, block structure) — lemma by cases over both compiled tables; "
+      "the encoder's private log/antilog tables are those of GF(256)/0x12D and the shared GenericGF Data Matrix field likewise (C04 lemmas); each of the 16 stored factor tables has the roots 2^1..2^n "
+      "(Horner evaluation over the carry-less product for all 461 (table, root) pairs; with 2 of order 255 this determines the monic generator polynomial); randomize253State and base256Randomize255State are proved equal to the "
+      "253-/255-state formulas for every position; DefaultPlacement.module is proved to write bit `bit` of codeword pos at the position wrapped by the annex F rules and nothing else; utah and corner1..4 are proved to place "
+      "bits 1..8 at the eight offsets of figures F.1-F.6; createECCBlock is proved panic-free with exact error condition and result length; ErrorCorrection_EncodeECC200 is proved to keep the data codewords first and unchanged, "
+      "to give each parity block exactly the codewords d = block (mod B) in order and the per-block parity length of the entry, for both kinds of table entry (calls through the entry's function fields are resolved over the "
+      "functions stored into them, and the table lemma symbolsWf ties each entry to its functions). "
+      "Not decided: the LFSR in createECCBlock against polynomial division, Place()'s traversal (which positions get which codeword index), the finder/clock tracks in encodeLowLevel, matrix_lib == matrix_ref for whole symbols.",
+      "tables (including which function each SymbolInfo entry holds) are dumped from the compiled package on every run; products of symbolic integers uninterpreted except in the arithmetic lemmas; "
+      "closed world for func-typed struct fields (the module is the whole program).")
 claim("C05",
       "Format and version information: the pairwise Hamming distance of the 32 format words is >= 7 and of the 34 version words >= 8 (all pairs, over the compiled tables); "
       "FormatInformation_NumBitsDiffering is proved to be the Hamming distance; the nearest-entry searches Version_decodeVersionInformation and doDecodeFormatInformation are proved (loop invariants over the "
@@ -116,6 +128,6 @@ claim("C17",
       "calculateBlackPoints, calculateThresholdForBlock, thresholdBlock, GetBlackRow).",
       "products of symbolic integers uninterpreted except for the proved index lemmas (viewRow, rotIdx, rowIdxInj); errors constructors from xerrors assumed non-panicking.")
 
-for p in ["C01","C02","C03","C08","C09","C15"]:
+for p in ["C01","C02","C03","C09","C15"]:
     na(p, NOTYET)
 na("C11", "The library has no Aztec writer: 'conforming symbol' would have to be a hand-written restatement of ISO/IEC 24778 (a model, not the code), and the image-to-bits path is a float-geometry detector; no contract on one call of the real code expresses the property. The Aztec decoder's totality is covered under C06.")
